@@ -104,7 +104,16 @@ class CtorWorld(GraphWorld):
             return TypeV("NotImplemented")
         return None
 
+    def concretise_iter(self, ip, it, node):
+        if isinstance(it, GraphParamV):
+            it = SelfV()
+        if isinstance(it, SelfV):
+            return ListObj([NodeV("n-of-G")]) if getattr(self, "generic_nodes", False) else super().concretise_iter(ip, NodeMap(), node)
+        return super().concretise_iter(ip, it, node)
+
     def load_attr(self, ip, obj, attr, node):
+        if isinstance(obj, AttrOf) and isinstance(obj.obj, NewGraph) and obj.attr == "_node":
+            return BoundMethod(obj, attr)
         if isinstance(obj, GraphParamV):
             obj = SelfV()
         if isinstance(obj, SelfV):
@@ -170,6 +179,11 @@ class CtorWorld(GraphWorld):
                 return Triples(name == "interactions")
             if name == "is_directed" and not args:
                 return Const(bool(self.directed))
+        if isinstance(obj, AttrOf) and isinstance(obj.obj, NewGraph) and obj.attr == "_node" and name == "update" and len(args) == 1 \
+                and isinstance(args[0], DictObj):
+            for k, v in args[0].entries.items():
+                obj.obj.other.append(("node_attr_store", k, v, len(obj.obj.calls)))
+            return NONE
         if isinstance(obj, NewGraph):
             if name == "add_interaction":
                 fn = self.all_methods[obj.cls]["add_interaction"]
@@ -195,7 +209,7 @@ class CtorWorld(GraphWorld):
 
     def exec_special_for(self, ip, st, it, env):
         if isinstance(it, Triples):
-            trip = TupleV([NodeV("U"), NodeV("V"), self.datadict])
+            trip = TupleV([NodeV("U"), NodeV("U" if self.cfg.get("loop") else "V"), self.datadict])
             ip.assign(st.target, trip, env)
             ip.exec_block(st.body, env)
             return
@@ -213,9 +227,21 @@ class CtorWorld(GraphWorld):
 
     def store_subscript(self, ip, obj, key, v, node, aug=None):
         if isinstance(obj, AttrOf) and isinstance(obj.obj, NewGraph) and obj.attr == "_node":
-            obj.obj.other.append(("node_attr_store", key, v))
+            obj.obj.other.append(("node_attr_store", key, v, self.calls_so_far(obj.obj)))
             return
         return super().store_subscript(ip, obj, key, v, node, aug)
+
+    def calls_so_far(self, g):
+        return len(g.calls)
+
+    def contains(self, ip, container, x, node):
+        if isinstance(container, AttrOf) and isinstance(container.obj, NewGraph) and container.attr == "_node" and isinstance(x, NodeV):
+            # is x already a node of the result?  yes once an interaction touching it was added (or attrs were stored)
+            g = container.obj
+            if x.role == "n-of-result":
+                return True
+            return any(x in (c[0], c[1]) for c in g.calls) or any(o[0] == "node_attr_store" and o[1] == x for o in g.other)
+        return super().contains(ip, container, x, node)
 
     def summarise_range_loop(self, ip, st, rng, env):
         """Emission loops: the body is run once for the generic element of the range."""
@@ -300,13 +326,14 @@ class CtorChecker:
         self.findings[k]["count"] += 1
 
     # ------------------------------------------------------------------
-    def _each_world(self, cls, fn, env_of, syms, cons, judge, n, world_cls=None):
+    def _each_world(self, cls, fn, env_of, syms, cons, judge, n, world_cls=None, extra_cfg=None):
         """Run fn over all order types (retrying with the symbol '0' when a literal comparison needs it)."""
         for zero in (False, True):
             try:
                 ots = enumerate_order_types(syms + (["0"] if zero else []), cons, self.R)
                 for ot in ots:
                     cfg = dict(cls=cls, directed=cls == "DynDiGraph", removal=True, exists=True, intervals=n)
+                    cfg.update(extra_cfg or {})
 
                     def once(ch, ot=ot, cfg=cfg):
                         w = (world_cls or CtorWorld)(cfg, ot, ch, self.all_methods[cls], self.all_methods)
@@ -343,7 +370,19 @@ class CtorChecker:
                                  lambda ot, w, kind, val, n=n, given=given: self._judge_slice(
                                      cls, construct, n, given, ot, w, kind, val), n)
 
-    def _judge_slice(self, cls, construct, n, given, ot, w, kind, val):
+    def check_time_slice_selfloop(self, cls):
+        """Same table for a pair that is a self-loop (u == v): its adjacency row contains the node itself."""
+        rel = CLASSES[cls]
+        fn = self.repo.get(rel, cls + ".time_slice")
+        construct = self.repo.construct(rel, cls + ".time_slice")
+        tsyms, tcons = _timeline_symbols(1)
+        self.instances += 1
+        env_of = lambda w: {"self": SelfV(), "t_from": Int("F"), "t_to": Int("T")}
+        self._each_world(cls, fn, env_of, tsyms + ["F", "T"], tcons,
+                         lambda ot, w, kind, val: self._judge_slice(cls, construct, 1, True, ot, w, kind, val, loop=True), 1,
+                         extra_cfg={"loop": True})
+
+    def _judge_slice(self, cls, construct, n, given, ot, w, kind, val, loop=False):
         T = "T" if given else "F"
         wit = "%d interval(s), t_to %s | order: %s" % (n, "given" if given else "omitted", ot.describe())
         bad_window = given and ot.cmp_terms(("T", 0), ("F", 0), "<")
@@ -378,7 +417,7 @@ class CtorChecker:
         got = []
         ok_nodes = True
         for (u, v, t, e, rctx, intry) in val.calls:
-            if not (u == NodeV("U") and v == NodeV("V")):
+            if not (u == NodeV("U") and v == NodeV("U" if loop else "V")):
                 ok_nodes = False
             got.append((t, e))
         if not ok_nodes:
@@ -388,7 +427,7 @@ class CtorChecker:
             isinstance(t, Int) and isinstance(e, Int) and ot.cmp_terms(t.term(), wl, "==") and ot.cmp_terms(e.term(), wh, "==")
             for (t, e), (wl, wh) in zip(got, want))
         if not same:
-            key = self._slice_key(ot, n, T, got, want)
+            key = self._slice_key(ot, n, T, got, want) + (":self-loop" if loop else "")
             self.add("C06.clip", construct, key,
                      "the slice re-adds %s; the presence inside the window is %s (start, vanishing time)" % (
                          [(repr(t), repr(e)) for t, e in got], [("%s%+d" % l if l[1] else l[0], "%s%+d" % h if h[1] else h[0]) for l, h in want]),
@@ -397,9 +436,15 @@ class CtorChecker:
         stores = [o for o in val.other if o[0] == "node_attr_store"]
         if want and not stores:
             self.add("C06.attrs", construct, "attrs-not-copied", "node attributes of the source are not carried to the slice", wit)
-        for (_, key, v) in stores:
-            if not (isinstance(key, NodeV) and key.role == "n-of-result" and isinstance(v, NodeAttrs) and v.node == key):
+        for o in stores:
+            key, v = o[1], o[2]
+            if not (isinstance(key, NodeV) and isinstance(v, NodeAttrs) and v.node == key):
                 self.add("C06.attrs", construct, "attrs-wrong", "node attribute transfer stores %r under %r" % (v, key), wit)
+            elif key.role != "n-of-result" and not got:
+                # attributes stored for an endpoint although no interaction of the pair falls in the window:
+                # the node would exist in the slice without any interaction
+                self.add("C06.nodes", construct, "ghost-node", "node attributes of %r are stored in the slice although none of its "
+                         "interactions lies in the window: the slice gains an isolated node" % (key,), wit)
         if len(self.samples) < 4 and want and n == 2:
             self.samples.append(dict(function=construct, world=wit, calls=[(repr(t), repr(e)) for t, e in got]))
 
@@ -593,9 +638,15 @@ class CtorChecker:
             g = e.get(Const("graph"))
             if not (isinstance(g, AttrOf) and g.attr == "graph"):
                 self.add("C11.data", construct, "graph-attrs", "data['graph'] is %r, expected the graph attributes" % (g,), wit)
-            if not isinstance(e.get(Const("nodes")), NodeList):
+            nodes = e.get(Const("nodes"))
+            ok_nodes = isinstance(nodes, NodeList)
+            if isinstance(nodes, ListObj):
+                # concrete enumeration of the modelled graph's nodes: every node once, attributes + id
+                roles = [x.node.role for x in nodes.items if isinstance(x, NodeEntry) and x.idkey == Const("id")]
+                ok_nodes = len(roles) == len(nodes.items) and sorted(roles) == sorted({"U", "V"})
+            if not ok_nodes:
                 self.add("C11.data", construct, "nodes", "data['nodes'] is %r, expected one entry per node of G with its attributes and id" % (
-                    e.get(Const("nodes")),), wit)
+                    nodes,), wit)
             links = e.get(Const("links"))
             if not isinstance(links, ListObj):
                 self.add("C11.links", construct, "links-not-a-list", "data['links'] is %r" % (links,), wit)
